@@ -204,6 +204,11 @@ class VttContext:
       self._paragraphs.pop()
       self._captions_counter -= 1
 
+    elif end is not None and self._paragraphs[-1].get_end().to_seconds() <= self._paragraphs[-1].get_begin().to_seconds():
+      LOGGER.debug("Removing paragraph whose duration is less than the time code resolution.")
+      self._paragraphs.pop()
+      self._captions_counter -= 1
+
   def process_div(self, region: ISD.Region, element: model.Div, begin: Fraction, end: Optional[Fraction]):
     """Process div element, which can contain both p and nested div elements"""
 
